@@ -37,6 +37,7 @@ PROPS = {
     ),
     'C04': dict(
         units=['driver', 'insert', 'tblrebuild'],
+        replay_units=['cont'],
         kani_quick=[],
         kani_thorough=['incremental_rebuild_monotone'],
         design_ref='DESIGN.md section 4 (U-REBUILD, U-DISP) and section 5 C04',
